@@ -843,6 +843,11 @@ class VectorStarSet(object):
                             continue
                         if (abs(g00 - 1) > threshold) or (abs(g11 - 1) > threshold):
                             # if we don't have the identify matrix, then we have to find the one vector that survives
+                            if g00 * g11 - g01 * g10 > 0:
+                                # rotation of the plane by pi (symmetric, determinant +1, e.g. a two-fold axis along dx):
+                                # no vector survives
+                                Nvect = 0
+                                continue
                             if abs(g00 - 1) < threshold:
                                 Nvect = 1
                                 continue
